@@ -503,4 +503,354 @@ theorem pvNode_sound [DecidableEq M] {g : Game P M} (hg : GameOK g) (he : EvalOK
           · intro _ hw; exact hwin hw
           · intro h1 _; omega
 
+
+/-! ### zero-window nodes -/
+
+def ZInv (g : Game P M) (a : ZwAcc M) (s : Eng M) : Prop := TableSound g s ∧ a.didCut = false
+
+def ZCov (g : Game P M) (α : Int) (_a : ZwAcc M) (c : P) : Prop := α < -Facts.winThreshold → Win g c
+
+def ZQb (g : Game P M) (p : P) (α : Int) (a : ZwAcc M) (s : Eng M) : Prop :=
+  TableSound g s ∧ a.didCut = true ∧ (α ≥ Facts.winThreshold → Win g p)
+
+theorem zwBody_sound [DecidableEq M] {g : Game P M} (hg : GameOK g) {o : Oracle M} {czw : ZwFn P M}
+    (hz : ZwOKt g czw) (p : P) (hov : g.over p = false) (ply : Nat) (depth α : Int) (cut : Bool) :
+    BodyOK g p (zwBody o czw ply depth α cut) (ZInv g) (ZCov g α) (ZQb g p α) (TQr g) := by
+  intro m c a s hap hinv
+  obtain ⟨hts, hdc⟩ := hinv
+  unfold zwBody
+  apply Sat.bind
+  intro sm _
+  apply Sat.bind
+  refine Sat.mono (hz c (ply + 1) (depth - 1) _ (-α - 1) (!cut) { s with stackM := sm } hts) ?_
+  rintro ⟨⟨ms, v⟩, s'⟩ ⟨hts', hsr⟩
+  dsimp only at hts' hsr ⊢
+  split
+  · rename_i hgt
+    apply Sat.bind
+    refine (recordCut_sound hts' m (a.i + 1) ply).mono ?_
+    intro s'' hts''
+    apply Sat.bind
+    intro pv0 _
+    refine Sat.pure ⟨hts'', rfl, ?_⟩
+    intro hw
+    exact win_of_child hg hov hap (hsr.2 (by omega) (by omega))
+  · rename_i hngt
+    apply Sat.pure
+    rcases afterChild_cases o ({ a with i := a.i + 1 } : ZwAcc M) s' with h | h
+    · rw [h]; exact ⟨hts', rfl⟩
+    · rw [h]
+      refine ⟨⟨hts', hdc⟩, fun c' hc' => hc', ?_⟩
+      intro c' hc'; subst hc'; unfold ZCov; intro hl
+      exact hsr.1 (by omega) (by omega)
+
+theorem zwStore_sound {g : Game P M} (hinj : HashInj g) (o : Oracle M) (p : P) (depth α : Int) (a : ZwAcc M)
+    {s : Eng M} (h : TableSound g s)
+    (hwin : a.didCut = true → α > Facts.winThreshold → Win g p)
+    (hloss : a.didCut = false → α < -Facts.winThreshold → Loss g p) :
+    Sat (zwStore o (g.hash p) depth α a s)
+      (fun x => TableSound g x.2 ∧ x.1.2 = if a.didCut then α + 1 else α) := by
+  unfold zwStore
+  apply Sat.bind
+  refine (ttPut_sound o h (g.hash p)).mono ?_
+  rintro ⟨slot?, s1⟩ hs1
+  dsimp only at hs1 ⊢
+  cases slot? with
+  | none => exact Sat.pure ⟨hs1, rfl⟩
+  | some slot =>
+    dsimp only
+    split
+    · refine Sat.pure ⟨?_, rfl⟩
+      have hs1' : TableSound g (if a.didCut = true then s1 else
+          { s1 with st := { s1.st with allNodes := s1.st.allNodes + 1 } }) := by
+        split <;> exact hs1
+      refine TableSound.setEntry hs1' slot _ ?_
+      intro q hq
+      dsimp only at hq
+      have : q = p := hinj q p hq
+      subst this
+      constructor
+      · intro hb hw
+        dsimp only at hb hw
+        cases hd : a.didCut with
+        | true => exact hwin hd hw
+        | false =>
+          rw [hd] at hb
+          simp only [Bool.false_eq_true, if_false, Facts.upperBound, Facts.lowerBound, Facts.exactBound] at hb
+          omega
+      · intro hb hl
+        dsimp only at hb hl
+        cases hd : a.didCut with
+        | false => exact hloss hd hl
+        | true =>
+          rw [hd] at hb
+          simp only [if_true, Facts.upperBound, Facts.lowerBound, Facts.exactBound] at hb
+          omega
+    · exact Sat.throw
+
+theorem zwNode_sound [DecidableEq M] {g : Game P M} (hg : GameOK g) (he : EvalOK g) (hinj : HashInj g)
+    {cfg : SOpts} (hpr : Precise cfg) {o : Oracle M} (hord : OrderOK o) (frame : Bool)
+    {czw : ZwFn P M} (hz : ZwOKt g czw) :
+    ZwOKt g (zwNode g cfg o frame czw) := by
+  intro p ply depth pv α cut s hts
+  unfold zwNode
+  dsimp only
+  split
+  · exact Sat.pure (leaf_sound p α (α + 1) hts)
+  · rename_i hnl
+    simp only [Bool.or_eq_true, decide_eq_true_eq, not_or, Int.not_le, Bool.not_eq_true] at hnl
+    obtain ⟨hdpos, hov⟩ := hnl
+    split
+    · exact Sat.throw
+    · apply Sat.bind
+      refine Sat.mono (ttProbe_sound p ply depth α (α + 1) (s := _) (by exact hts)) ?_
+      rintro ⟨probe, s1⟩ ⟨hts1, hprobe⟩
+      dsimp only at hts1 hprobe ⊢
+      cases probe with
+      | inl r => exact Sat.pure ⟨hts1, hprobe⟩
+      | inr te =>
+        dsimp only
+        apply Sat.bind
+        rw [nullMove_precise hpr]
+        apply Sat.ok
+        dsimp only
+        apply Sat.bind
+        rw [slideReduction_precise hpr]
+        apply Sat.ok
+        dsimp only
+        apply Sat.bind
+        rw [multiCut_precise hpr]
+        apply Sat.ok
+        dsimp only
+        apply Sat.bind
+        intro x _
+        apply Sat.bind
+        have hb := zwBody_sound hg (o := o) hz p hov ply depth α cut
+        refine Sat.mono (iterate_rule hb cfg o ⟨ply, depth, te, pv⟩ (hg.gen p) hord
+          (fun a s k hi => ⟨hi.1, hi.2⟩) (⟨[x], 0, false⟩ : ZwAcc M) _ ⟨hts1, rfl⟩) ?_
+        rintro ⟨c, s2⟩ hpost
+        cases c with
+        | ret r =>
+          obtain ⟨hts3, hr0⟩ := hpost
+          refine Sat.pure ⟨hts3, ?_⟩
+          dsimp only
+          rw [hr0]
+          constructor <;> intro _ h0 <;> simp only [Facts.winThreshold] at h0 <;> omega
+        | next a =>
+          obtain ⟨⟨hts3, hdc⟩, _, hcov⟩ := hpost
+          dsimp only
+          have hloss : α < -Facts.winThreshold → Loss g p := by
+            intro hl
+            refine loss_of_children he hov ?_
+            intro x hx
+            obtain ⟨hm, hap⟩ := mem_kids.mp (show (x.1, x.2) ∈ kids g p from hx)
+            exact hcov x.2 ⟨x.1, hm, hap⟩ hl
+          refine (zwStore_sound hinj o p depth α a hts3 (fun h => by rw [hdc] at h; cases h)
+            (fun _ => hloss)).mono ?_
+          rintro ⟨r, s4⟩ ⟨hts4, hr⟩
+          dsimp only at hts4 hr ⊢
+          refine ⟨hts4, ?_⟩
+          rw [hr, hdc]
+          simp only [Bool.false_eq_true, if_false]
+          constructor
+          · intro h1 _; omega
+          · intro _ hl; exact hloss hl
+        | brk a =>
+          obtain ⟨hts3, hdc, hwin⟩ := hpost
+          dsimp only
+          refine (zwStore_sound hinj o p depth α a hts3 (fun _ hw => hwin (by omega))
+            (fun h => by rw [hdc] at h; cases h)).mono ?_
+          rintro ⟨r, s4⟩ ⟨hts4, hr⟩
+          dsimp only at hts4 hr ⊢
+          refine ⟨hts4, ?_⟩
+          rw [hr, hdc]
+          simp only [if_true]
+          constructor
+          · intro _ hw; exact hwin (by omega)
+          · intro h1 _; omega
+
+/-- **table soundness of the search**: in a precise configuration (with or without a table, whatever it
+contains as long as it is sound, for every move order and every cancellation pattern) both searches keep the
+table sound and return values that are sound for their window -/
+theorem search_sound [DecidableEq M] {g : Game P M} (hg : GameOK g) (he : EvalOK g) (hinj : HashInj g)
+    {cfg : SOpts} (hpr : Precise cfg) {o : Oracle M} (hord : OrderOK o) :
+    ∀ n, PvOKt g (search g cfg o n).1 ∧ ZwOKt g (search g cfg o n).2 := by
+  intro n
+  induction n with
+  | zero =>
+    have hze : ZwOKt g (fun _ _ _ _ _ _ _ => (.error (.panic "ai.stack[ply]: index out of range") : Except Err (Res M × Eng M))) :=
+      fun _ _ _ _ _ _ _ _ => Sat.error
+    have hpe : PvOKt g (fun _ _ _ _ _ _ _ => (.error (.panic "ai.stack[ply]: index out of range") : Except Err (Res M × Eng M))) :=
+      fun _ _ _ _ _ _ _ _ _ => Sat.error
+    exact ⟨pvNode_sound hg he hinj hpr hord false hpe hze, zwNode_sound hg he hinj hpr hord false hze⟩
+  | succ n ih =>
+    exact ⟨pvNode_sound hg he hinj hpr hord true ih.1 ih.2, zwNode_sound hg he hinj hpr hord true ih.2⟩
+
+
+/-! ### `Analyze` and histories of calls -/
+
+/-- a reported value is a sound verdict for the position -/
+def VSound (g : Game P M) (p : P) (v : Int) : Prop :=
+  (v > Facts.winThreshold → Win g p) ∧ (v < -Facts.winThreshold → Loss g p)
+
+theorem VSound.zero (g : Game P M) (p : P) : VSound g p 0 := by
+  constructor <;> intro h <;> simp only [Facts.winThreshold] at h <;> omega
+
+theorem seedOf_sound {g : Game P M} (p : P) (te : Option (TEntry M)) (h : ∀ e, te = some e → SoundE g e p) :
+    VSound g p (seedOf te).2.2 := by
+  unfold seedOf
+  cases te with
+  | none => exact VSound.zero g p
+  | some e =>
+    dsimp only
+    split
+    · rename_i hb
+      have hb' : e.bound = Facts.exactBound := by simpa using hb
+      exact ⟨(h e rfl).1 (Or.inr hb'), (h e rfl).2 (Or.inr hb')⟩
+    · exact VSound.zero g p
+
+/-- what a deepening step leaves: a sound table and (if it completed) a sound value -/
+def StepSound (g : Game P M) (p : P) : AOut M → Prop
+  | .go a' s' => TableSound g s' ∧ VSound g p a'.v
+  | .done a' s' => TableSound g s' ∧ VSound g p a'.v
+  | .cancelled s' => TableSound g s'
+
+theorem analyzeStep_sound [DecidableEq M] {g : Game P M} (hg : GameOK g) (he : EvalOK g) (hinj : HashInj g)
+    {cfg : Cfg} (hpr : Precise cfg.opts) {o : Oracle M} (hord : OrderOK o)
+    (p : P) (base i : Int) (a : ALoop M) (s : Eng M) (hts : TableSound g s) :
+    Sat (analyzeStep g cfg o p base i a s) (StepSound g p) := by
+  unfold analyzeStep pvSearch
+  have hab : Facts.minEval - 1 < Facts.maxEval + 1 := by simp only [Facts.minEval, Facts.maxEval]; omega
+  have hs := (search_sound hg he hinj hpr hord (Facts.maxDepth - 0)).1 p 0 (i + base) a.ms
+    (Facts.minEval - 1) (Facts.maxEval + 1) { s with st := { depth := i + base } } hts hab
+  cases hr : (search g cfg.opts o (Facts.maxDepth - 0)).1 p 0 (i + base) a.ms (Facts.minEval - 1)
+      (Facts.maxEval + 1) { s with st := { depth := i + base } } with
+  | error e => exact Sat.error
+  | ok r =>
+    obtain ⟨⟨next, nv⟩, s1⟩ := r
+    obtain ⟨hts1, hsr⟩ := hs _ hr
+    dsimp only at hts1 hsr
+    apply Sat.ok
+    unfold iterEnd
+    cases next with
+    | none => exact hts1
+    | some nx =>
+      dsimp only
+      have hv : VSound g p nv := by
+        constructor
+        · intro hw; exact hsr.1 (by simp only [Facts.minEval, Facts.winThreshold] at hw ⊢; omega) hw
+        · intro hl; exact hsr.2 (by simp only [Facts.maxEval, Facts.winThreshold] at hl ⊢; omega) hl
+      cases hc : (load o s1).1 with
+      | true => simp only [if_true]; exact hts1
+      | false =>
+        simp only [Bool.false_eq_true, if_false]
+        rcases iterDone_cases cfg base i a nx nv (load o s1).2 with h | h
+        · rw [h]; exact ⟨hts1, hv⟩
+        · rw [h]; exact ⟨hts1, hv⟩
+
+theorem analyzeLoop_sound [DecidableEq M] {g : Game P M} (hg : GameOK g) (he : EvalOK g) (hinj : HashInj g)
+    {cfg : Cfg} (hpr : Precise cfg.opts) {o : Oracle M} (hord : OrderOK o) (p : P) (base : Int) :
+    ∀ (n : Nat) (i : Int) (a : ALoop M) (s : Eng M), TableSound g s → VSound g p a.v →
+      Sat (analyzeLoop g cfg o p base n i a s) (fun x => TableSound g x.2 ∧ VSound g p x.1.v) := by
+  intro n
+  induction n with
+  | zero => intro i a s hts hv; simp only [analyzeLoop]; exact Sat.ok ⟨hts, hv⟩
+  | succ n ih =>
+    intro i a s hts hv
+    simp only [analyzeLoop]
+    split
+    · exact Sat.ok ⟨hts, hv⟩
+    · have hstep := analyzeStep_sound hg he hinj hpr hord p base i a s hts
+      cases hr : analyzeStep g cfg o p base i a s with
+      | error e => exact Sat.error
+      | ok x =>
+        have hx := hstep x hr
+        cases x with
+        | cancelled s' => exact Sat.ok ⟨hx, hv⟩
+        | done a' s' => exact Sat.ok hx
+        | go a' s' => exact ih (i + 1) a' s' hx.1 hx.2
+
+/-- **`Analyze` keeps the table sound and reports a sound verdict** (precise options; any table size and
+content history, any move order, any cancellation) -/
+theorem analyze_sound [DecidableEq M] {g : Game P M} (hg : GameOK g) (he : EvalOK g) (hinj : HashInj g)
+    {cfg : Cfg} (hpr : Precise cfg.opts) {o : Oracle M} (hord : OrderOK o) (p : P) (s : Eng M)
+    (hts : TableSound g s) :
+    Sat (analyze g cfg o p s) (fun x => TableSound g x.2 ∧ VSound g p x.1.2.1) := by
+  unfold analyze
+  have hget := ttGet_sound (s := { s with loads := 0, evals := 0, sorts := 0, rnds := 0 }) hts p
+  cases hg' : ttGet { s with loads := 0, evals := 0, sorts := 0, rnds := 0 } (g.hash p) with
+  | error e => exact Sat.error
+  | ok te =>
+    have hte := hget te hg'
+    show Sat (analyzeFrom g cfg o p (seedOf te) { s with loads := 0, evals := 0, sorts := 0, rnds := 0 }) _
+    unfold analyzeFrom
+    have hseed := seedOf_sound p te hte
+    have hloop := analyzeLoop_sound hg he hinj hpr hord p (seedOf te).1 (cfg.depth - (seedOf te).1).toNat 1
+      ⟨(seedOf te).2.1, (seedOf te).2.2, { depth := (seedOf te).1 }, 0, 0⟩
+      { s with loads := 0, evals := 0, sorts := 0, rnds := 0 } hts hseed
+    cases hr : analyzeLoop g cfg o p (seedOf te).1 (cfg.depth - (seedOf te).1).toNat 1
+        ⟨(seedOf te).2.1, (seedOf te).2.2, { depth := (seedOf te).1 }, 0, 0⟩
+        { s with loads := 0, evals := 0, sorts := 0, rnds := 0 } with
+    | error e => exact Sat.error
+    | ok x =>
+      obtain ⟨a, s'⟩ := x
+      exact Sat.ok (hloop _ hr)
+
+/-- a new engine's table (all entries zero) is sound -/
+theorem tableSound_new {g : Game P M} (cfg : Cfg) : TableSound g (Eng.new g cfg) := by
+  intro i e hi p _
+  unfold Eng.new at hi
+  dsimp only at hi
+  have : e = ⟨0#64, 0, g.zeroMove, 0, 0⟩ := by
+    rw [Array.getElem?_replicate] at hi
+    split at hi
+    · exact (Option.some.inj hi).symm
+    · cases hi
+  subst this
+  constructor <;> intro _ h <;> simp only [Facts.winThreshold] at h <;> omega
+
+/-- a history of `Analyze` calls on one engine: position and environment (cancellation, move order) of each call -/
+abbrev History (P M : Type) := List (P × Oracle M)
+
+/-- run the calls one after the other on the same engine, collecting (position, reported value) -/
+def runCalls [DecidableEq M] (g : Game P M) (cfg : Cfg) : History P M → Eng M → Except Err (List (P × Int) × Eng M)
+  | [], s => .ok ([], s)
+  | (p, o) :: rest, s =>
+    match analyze g cfg o p s with
+    | .error e => .error e
+    | .ok (r, s1) =>
+      match runCalls g cfg rest s1 with
+      | .error e => .error e
+      | .ok (rs, s2) => .ok ((p, r.2.1) :: rs, s2)
+
+theorem runCalls_sound [DecidableEq M] {g : Game P M} (hg : GameOK g) (he : EvalOK g) (hinj : HashInj g)
+    {cfg : Cfg} (hpr : Precise cfg.opts) :
+    ∀ (h : History P M) (s : Eng M), (∀ x ∈ h, OrderOK x.2) → TableSound g s →
+      Sat (runCalls g cfg h s) (fun x => TableSound g x.2 ∧ ∀ y ∈ x.1, VSound g y.1 y.2) := by
+  intro h
+  induction h with
+  | nil => intro s _ hts; exact Sat.ok ⟨hts, fun y hy => by cases hy⟩
+  | cons c rest ih =>
+    intro s hord hts
+    obtain ⟨p, o⟩ := c
+    simp only [runCalls]
+    have ha := analyze_sound hg he hinj hpr (hord (p, o) (by simp)) p s hts
+    cases hr : analyze g cfg o p s with
+    | error e => exact Sat.error
+    | ok x =>
+      obtain ⟨r, s1⟩ := x
+      obtain ⟨hts1, hv⟩ := ha _ hr
+      dsimp only at hts1 hv ⊢
+      have hrest := ih s1 (fun x hx => hord x (List.mem_cons_of_mem _ hx)) hts1
+      cases hr2 : runCalls g cfg rest s1 with
+      | error e => exact Sat.error
+      | ok y =>
+        obtain ⟨rs, s2⟩ := y
+        obtain ⟨hts2, hvs⟩ := hrest _ hr2
+        refine Sat.ok ⟨hts2, ?_⟩
+        intro z hz
+        rcases List.mem_cons.mp hz with rfl | hz
+        · exact hv
+        · exact hvs z hz
+
 end Search
